@@ -127,6 +127,16 @@ def run(tier):
                         fails.append({"history": [{"entry": "insn", "code": code}], "behaviour": code, "reported": f0["meta"], "expected_from_text": sorted(exp)})
                         break
     for f in fails[:1]:
+        if "reported_when_compiled_first" in f and len(f.get("history", [])) > 1:
+            try:
+                want = set(f["reported_when_compiled_first"])
+                small = k2.shrink_history(f["history"], lambda st: bool(st.get("ok")) and set(st.get("meta") or []) != want)
+                if len(small) < len(f["history"]):
+                    f["history_as_generated"] = f["history"]
+                    f["history"] = small
+                    f["step"] = len(small) - 1
+            except Exception:
+                pass
         res.violation({"what": "reported attributes differ from the behaviour's own", "input": f, "broken": [vars(x) for x in broken]})
     if broken and not fails:
         res.violation({"what": "a proof obligation, translator or correspondence no longer checks; no history with wrong attributes found",
